@@ -336,28 +336,35 @@ def make_service(rng, ty, dev, idx):
     """One service instance of a simulated device: (type, instance label(s), port, txt chunks)."""
     did = dev["id"]
     name = dev["name"]
+    blank = dev.get("blank", ())      # identifier sources of this device that are present but EMPTY / missing
     chunks = []
     inst = name
     port = 1024 + rng.randrange(60000)
     if ty == "_airplay._tcp.local":
-        chunks = [["deviceid", hx(did + ":AP")], ["features", hx("0x4A7FCA00,0xBC354BD0")]]
+        chunks = [["deviceid", "" if "airplay" in blank else hx(did + ":AP")], ["features", hx("0x4A7FCA00,0xBC354BD0")]]
         if dev.get("apmodel"):
             chunks.append(["model", hx(dev["apmodel"])])
         if rng.random() < 0.3:
             chunks.append(["acl", hx("0")])
     elif ty == "_companion-link._tcp.local":
         chunks = [["rpHA", hx("9948cfb6da55")], ["rpFl", hx("0x36782")]]
-        if rng.random() < 0.6:
+        if rng.random() < 0.6 and "companion" not in blank:
             chunks.append(["rpMRtID", hx(did + "-CMP")])
+        elif "companion" in blank and rng.random() < 0.5:
+            chunks.append(["rpMRtID", ""])
         if dev.get("apmodel") and rng.random() < 0.5:
             chunks.append(["rpMd", hx(dev["apmodel"])])
     elif ty == "_mediaremotetv._tcp.local":
-        chunks = [["Name", hx(name)], ["UniqueIdentifier", hx(did + "-MRP")],
+        chunks = [["Name", hx(name)], ["UniqueIdentifier", "" if "mrp" in blank else hx(did + "-MRP")],
                   ["SystemBuildVersion", hx(rng.choice(["18M60", "19J346", "17K449"]))]]
         if rng.random() < 0.5:
             chunks.append(["AllowPairing", hx("YES")])
     elif ty == "_raop._tcp.local":
-        if rng.random() < 0.8:
+        if "raop" in blank:
+            inst = "@" + name                            # empty MAC part, no pk (or an empty one)
+            if rng.random() < 0.3:
+                chunks.append(["pk", ""])
+        elif rng.random() < 0.8:
             inst = did.replace(":", "") + "@" + name
         else:
             chunks.append(["pk", hx(did + "pk")])
@@ -366,17 +373,18 @@ def make_service(rng, ty, dev, idx):
     elif ty == "_airport._tcp.local":
         chunks = [["syAP", hx("115")], ["syVs", hx("7.8.1")]]      # no "waMA": its parsing is outside the model
     elif ty == "_appletv-v2._tcp.local":
-        inst = dev["dmapid"] + "_hs"
+        inst = ("" if "dmap" in blank else dev["dmapid"]) + "_hs"
         port = dev["dmapport"]
         chunks = [["Name", hx(name)], ["hG", hx("00000000-1111-2222")]]
     elif ty == "_touch-able._tcp.local":
-        inst = dev["dmapid"]
+        inst = "_ta" if "dmap" in blank else dev["dmapid"]
         port = dev["dmapport"]
         chunks = [["CtlN", hx(name)], ["DvTy", hx("AppleTV")]]
     elif ty == "_hscp._tcp.local":
         inst = name + " lib"
         port = dev["dmapport"]
-        chunks = [["Machine Name", hx(name)], ["Machine ID", hx(dev["dmapid"])], ["hG", hx("00000000-1111-2222")]]
+        chunks = [["Machine Name", hx(name)], ["Machine ID", "" if "dmap" in blank else hx(dev["dmapid"])],
+                  ["hG", hx("00000000-1111-2222")]]
     else:  # foreign type
         chunks = [["id", hx(did)], ["md", hx("Chromecast")]]
     chunks = [[vary_key(rng, k), v] for k, v in chunks]
@@ -408,6 +416,14 @@ def make_device(rng, i, kinds, nserv=None):
         "apmodel": rng.choice([None, None] + MODEL_STRS[:1] + MODEL_STRS),
         "devinfo": rng.choice([None] + INTERNAL_STRS),
     }
+    r = rng.random()
+    groups = ["airplay", "mrp", "raop", "companion", "dmap"]
+    if r < 0.12:
+        dev["blank"] = groups                            # no usable identifier at all: must not be returned
+    elif r < 0.22:
+        dev["blank"] = rng.sample(groups, rng.randint(1, 3))
+    else:
+        dev["blank"] = []
     # model hints of a self-consistent device agree: keep the _device-info model only when it
     # does not contradict the AirPlay/RAOP/Companion model string
     n = nserv or rng.randint(1, 5)
@@ -479,6 +495,10 @@ def device_ids(dev, req=None):
         t = sv["type"]
         if req is not None and t not in req:
             continue
+        grp = {"_mediaremotetv._tcp.local": "mrp", "_airplay._tcp.local": "airplay", "_raop._tcp.local": "raop",
+               "_companion-link._tcp.local": "companion"}.get(t, "dmap")
+        if grp in dev.get("blank", ()):
+            continue
         if t == "_mediaremotetv._tcp.local":
             out.append(dev["id"] + "-MRP")
         elif t == "_airplay._tcp.local":
@@ -544,6 +564,22 @@ def gen_consistent(rng, mode, with_ids):
     if rng.random() < 0.15:
         dgrams.append({"src": rng.choice(dgrams)["src"] if rng.random() < 0.5 else (10 << 24) + 250,
                        "host": rng.randrange(ndev), "garbage": bytes(rng.randrange(256) for _ in range(rng.randint(0, 20))).hex()})
+    if mode == "m" and rng.random() < 0.55:
+        # answers for service types that were NOT asked for, from the devices' own addresses: they must not
+        # influence anything (judged by comparing the same delivery with and without them)
+        for _ in range(rng.randint(1, 3)):
+            dev = rng.choice(devs)
+            src = [d["src"] for d in dgrams if d.get("host") == devs.index(dev)][0]
+            unreq = [t for t in ALL_TYPES if t not in req] + FOREIGN_TYPES
+            ty = rng.choice(unreq)
+            fdev = dict(dev, blank=[])
+            sv = make_service(rng, ty, fdev, 0)
+            a, b = service_records(fdev, sv)
+            if rng.random() < 0.6:
+                msg = {"answers": a, "additional": [], "compress": True}             # pointer only: all ports 0
+            else:
+                msg = {"answers": a, "additional": b + [rec_a([dev["host"], "local"], dev["ip"])], "compress": True}
+            dgrams.append({"src": src, "host": devs.index(dev), "msg": msg, "unrequested": True})
     ids = []
     if with_ids:
         cands = [x for d in devs for x in device_ids(d, req)]
@@ -909,6 +945,21 @@ def group_judge(sc, res):
     for order, obs, info, burst in good:
         for k, w in judge_single(sc, obs):
             out.append({"key": "C12:%s:%s" % (mode, k), "what": w, "order": run_spec(order, burst), "base": None})
+    # answers for service types that were not requested are ignored: the same delivery with and without
+    # them returns the same configurations
+    extra = {j for j, d in enumerate(sc["dgrams"]) if d.get("unrequested")}
+    if extra and sc["mode"] == "m":
+        plain = {(tuple(r[0]), r[3]): r for r in good if not (set(r[0]) & extra)}
+        for order, obs, info, burst in good:
+            if not (set(order) & extra):
+                continue
+            ref = plain.get((tuple(i for i in order if i not in extra), burst))
+            if ref is not None and normalise(ref[1]) != normalise(obs):
+                out.append({"key": "C12:multicast:unrequested-answer-changes-result",
+                            "what": "answers for service types that were not requested changed the returned configurations "
+                                    "(delivery with them vs the same delivery without them)",
+                            "order": run_spec(order, burst), "base": run_spec(ref[0], burst)})
+    good = [r for r in good if not (set(r[0]) & extra)]
     if not sc["consistent"]:
         return out
     for burst in (False, True):
@@ -993,7 +1044,8 @@ def run(ctx):
             mode = "u" if "u" in kind else "m"
             gen = gen_inconsistent if kind.startswith("x") else gen_consistent
             sc = gen(rng, mode, "i" in kind)
-            nd = len(sc["dgrams"])
+            extra = [j for j, d in enumerate(sc["dgrams"]) if d.get("unrequested")]
+            nd = len(sc["dgrams"]) - len(extra)
             if ctx.thorough:
                 ex = nd <= 5 or (nd == 6 and rng.random() < 0.15)
             else:
@@ -1002,6 +1054,15 @@ def run(ctx):
             # the same deliveries handed over as one batch: all of them for unicast, every other one for multicast
             runs = [(o, False) for o in orders]
             runs += [(o, True) for j, o in enumerate(orders) if mode == "u" or j % 2 == 0]
+            for o in orders[:4] if extra else []:
+                w = list(o)
+                for j in extra:
+                    w.insert(rng.randrange(len(w) + 1), j)
+                    if rng.random() < 0.3:
+                        w.insert(rng.randrange(len(w) + 1), j)
+                runs += [(w, False), (w, True)]
+                if (o, True) not in runs:
+                    runs.append((o, True))
             plan.append((sc, runs, kind))
     tm, ti = lookup_tables()
     ctx.note("built; %d scenarios planned (%.1fs)" % (len(plan), time.time() - ctx.t0))
